@@ -67,12 +67,22 @@ def gen_cases(rng, tier, count=None):
             out.append(gen.add_midqueries(rng, c, 0.25) if a not in ("SequOOL", "StroquOOL") else c)
         else:
             out.append(gen.add_midqueries(rng, gen.add_queries(rng, c, 0.5), 0.25))
+    # long Zooming runs (several thousand rounds): bookkeeping slips of the arm table damage the tree only when a
+    # rarely played arm finally reaches its refinement threshold
+    for i in range(24 if tier == "quick" else 160):
+        T = int(rng.integers(6000, 16001))
+        c = gen.algo_case(rng, "Zooming", tier, n=T, T=T, dim=2, part=str(rng.choice(["DimBin", "DimBin", "DimBin", "K3", "RBin"])),
+                          fams=["cl_hump", "cl_sine", "cl_garland", "noisy", "unit"], box_kind="unit")
+        c["params"] = {"nu": float(rng.uniform(0.5, 2.0)), "rho": float(rng.uniform(0.5, 0.8))}
+        c["walk_every"] = 25
+        c["_cost"] = 30.0
+        out.append(c)
     return out
 
 
 def run_case(case):
     if case.get("kind") == "partition":
         return PM.run_partition_case(case, PROP)
-    m = PM.IndexMon(every=1 if case["T"] <= 300 else 3)
+    m = PM.IndexMon(every=case.get("walk_every") or (1 if case["T"] <= 300 else 3))
     ctx = drive(case, [m])
     return result_of(ctx, [m], prefix=PROP, nontrivial=lambda ctx, res: ctx.round >= 30)
